@@ -23,9 +23,11 @@ for d in sorted(glob.glob(os.path.join(ROOT, "seeded", "*"))):
     np = os.path.join(d, "NOTES.md")
     if os.path.exists(np):
         notes = open(np).read()
-    if name.startswith("S-"):
-        prop = name[2:5]
+    if name.startswith("S-") or name.startswith("S2-"):
+        prop = name.split("-")[1]
         origin = "fresh sub-agent, given only the text of property %s and its own scratch worktree of /repo under /tmp (nothing from /verif)" % prop
+        if name.startswith("S2-"):
+            origin += "; second round: additionally told which changes the first round had produced for this property (titles only) and asked for different, subtler ones"
         confirmed = "tools/confirm_seed.sh in the agent's scratch worktree: demo passes on the unchanged tree; patch applies with git apply; go build ./... ok; baseline suite (go test -vet=off -count=1 ./cmd/... ./pkg/...) passes with the patch; demo fails with the patch"
     else:
         prop, commit = revert_props.get(name, ("?", "?"))
@@ -57,11 +59,19 @@ for key in sorted(by):
     elif key.startswith("R"):
         prop, what = revert_props[key][0], "revert of fix " + revert_props[key][1]
     else:
-        prop, what = key[2:5], short(key)
+        prop, what = key.split("-")[1], short(key)
     own = [r for r in rs if r["check"] == prop]
     oth = [r for r in rs if r["check"] != prop]
     f = lambda r: "%s %s (%ds)" % (r["check"], r["result"].lower(), r["seconds"])
     out.append("| %s | %s | %s | %s | %s |" % (key, prop, what.replace("|", "/"), ", ".join(f(r) for r in own) or "-", ", ".join(f(r) for r in oth) or "-"))
 open(os.path.join(ROOT, ".build", "catch-matrix.md"), "w").write("\n".join(out) + "\n")
-caught = sum(1 for k in by if any(r["result"] == "CAUGHT" and (k.startswith("REVERT") or k.startswith("R") or r["check"] == k[2:5]) for r in by[k]))
+def ownprop(k):
+    if k.startswith("REVERT:"):
+        return by[k][0]["check"]
+    if k in revert_props:
+        return revert_props[k][0]
+    return k.split("-")[1]
+caught = sum(1 for k in by if any(r["result"] == "CAUGHT" and r["check"] == ownprop(k) for r in by[k]))
+anycaught = sum(1 for k in by if any(r["result"] == "CAUGHT" for r in by[k]))
+print("caught by any listed check: %d" % anycaught)
 print("mutants: %d, caught by own check: %d" % (len(by), caught))
